@@ -9,5 +9,6 @@ import sys
 sys.path.insert(0, 'lib')
 import facts
 facts.build_driver()
-print(facts.ensure('default'))
+print(facts.ensure("default"))
+print(facts.ensure_fixture())
 PY
